@@ -235,7 +235,22 @@ impl<'a, 'b> SGen<'a, 'b> {
                 if self.src.chance(1, 4) {
                     Expr::Un(UnOp::Neg, bx(lit_int(1 + self.src.below(99) as u32)))
                 } else {
-                    [Expr::Int("0".into()), Expr::Int("7".into()), Expr::Int("0x1F".into()), Expr::Int("0b101".into()), Expr::Int("1_000".into()), lit_int(self.src.below(500) as u32)][self.src.below(6)].clone()
+                    [
+                        Expr::Int("0".into()),
+                        Expr::Int("7".into()),
+                        Expr::Int("0x1F".into()),
+                        Expr::Int("0b101".into()),
+                        Expr::Int("1_000".into()),
+                        lit_int(self.src.below(500) as u32),
+                        Expr::Int("0XfF".into()),
+                        Expr::Int("0B1_0".into()),
+                        Expr::Int("0o17".into()),
+                        Expr::Int("0O7_7".into()),
+                        Expr::Int("0_1".into()),
+                        Expr::Int("00".into()),
+                        Expr::Int("0xdead_BEEF".into()),
+                    ][self.src.below(13)]
+                    .clone()
                 }
             }
             STy::UInt(_) => lit_int(self.src.below(500) as u32),
@@ -243,7 +258,22 @@ impl<'a, 'b> SGen<'a, 'b> {
                 if self.src.chance(1, 4) {
                     lit_int(self.src.below(9) as u32)
                 } else {
-                    [Expr::Float("1.5".into()), Expr::Float("0.25".into()), Expr::Float("2e3".into()), Expr::Float(".5".into()), Expr::Un(UnOp::Neg, bx(Expr::Float("3.5".into())))][self.src.below(5)].clone()
+                    [
+                        Expr::Float("1.5".into()),
+                        Expr::Float("0.25".into()),
+                        Expr::Float("2e3".into()),
+                        Expr::Float(".5".into()),
+                        Expr::Un(UnOp::Neg, bx(Expr::Float("3.5".into()))),
+                        Expr::Float("1E3".into()),
+                        Expr::Float(".5E-3".into()),
+                        Expr::Float("7.".into()),
+                        Expr::Float("1.e+2".into()),
+                        Expr::Float("2_0.2_5".into()),
+                        Expr::Float("0_1.5".into()),
+                        Expr::Un(UnOp::Neg, bx(Expr::Float(".25".into()))),
+                        Expr::Float("25E-1".into()),
+                    ][self.src.below(13)]
+                    .clone()
                 }
             }
             STy::Complex(_) => [
@@ -255,7 +285,11 @@ impl<'a, 'b> SGen<'a, 'b> {
                 Expr::Un(UnOp::Neg, bx(Expr::Imag("4".into(), false, false))),
                 Expr::Un(UnOp::Neg, bx(Expr::Imag("1.5".into(), true, false))),
                 Expr::Imag("7".into(), false, true),
-            ][self.src.below(8)]
+                Expr::Imag(".5".into(), true, false),
+                Expr::Imag("1E2".into(), true, false),
+                Expr::Imag("0x10".into(), false, true),
+                Expr::Un(UnOp::Neg, bx(Expr::Imag(".5".into(), true, true))),
+            ][self.src.below(12)]
             .clone(),
             STy::Bool => Expr::Bool(self.src.bool()),
             STy::BitReg(n) => {
@@ -274,11 +308,16 @@ impl<'a, 'b> SGen<'a, 'b> {
             STy::Duration => {
                 let unit = ["ns", "us", "ms", "s", "dt", "µs"][self.src.below(6)].to_string();
                 let n = 1 + self.src.below(200);
-                match self.src.below(6) {
+                match self.src.below(11) {
                     0 | 1 | 2 => Expr::Timing(format!("{n}"), false, unit, false),
                     3 => Expr::Timing(format!("{n}.5"), true, unit, false),
                     4 => Expr::Un(UnOp::Neg, bx(Expr::Timing(format!("{n}"), false, unit, false))),
-                    _ => Expr::Timing(format!("{n}"), false, unit, true),
+                    5 => Expr::Timing(format!("{n}"), false, unit, true),
+                    6 => Expr::Timing(".5".into(), true, unit, false),
+                    7 => Expr::Timing(format!("{n}E1"), true, unit, false),
+                    8 => Expr::Timing(format!("0_{n}"), false, unit, false),
+                    9 => Expr::Un(UnOp::Neg, bx(Expr::Timing(".25".into(), true, unit, true))),
+                    _ => Expr::Timing(format!("{n}.e-1"), true, unit, false),
                 }
             }
             STy::Angle(_) | STy::Bit => return None,
